@@ -63,7 +63,8 @@ Record hrec := mk_hrec {
   hr_ref : option N;            (* reference_sequence_id *)
   hr_start : option N;          (* alignment_start *)
   hr_rl : N;                    (* read_length *)
-  hr_feats : list wfeature      (* features *)
+  hr_feats : list wfeature;     (* features *)
+  hr_missing : bool             (* cram_flags SEQUENCE_IS_MISSING *)
 }.
 
 (* Position::new *)
@@ -286,7 +287,9 @@ Record cont_hdr := mk_cont_hdr {
 }.
 
 (* calculate_base_count *)
-Definition base_count (rs : list hrec) : N := fold_right (fun r a => hr_rl r + a) 0 rs.
+(* /repo 0049c20: a record without a sequence has a read length but no bases *)
+Definition base_count (rs : list hrec) : N :=
+  fold_right (fun r a => (if hr_missing r then 0 else hr_rl r) + a) 0 rs.
 
 (* container::write_header + slice::write_header: the conversions that can fail *)
 Definition cont_fits (h : cont_hdr) : bool :=
@@ -335,25 +338,29 @@ Definition write_stream (refsq : list (N * list N)) (rps spc : nat) (rs : list h
 (* ---------------------------------------------------------------- from the SAM record *)
 (* the fields of an alignment record that reach the headers *)
 Record srec := mk_srec {
+  sr_unmapped : bool;   (* FLAG 0x4 *)
   sr_ref : option N; sr_start : option N; sr_ops : list op; sr_seq : list N; sr_quals : list N
 }.
-Definition srec_of (r s : option N) (ops : list op) (sq ql : list N) : srec := mk_srec r s ops sq ql.
+Definition srec_of (u : bool) (r s : option N) (ops : list op) (sq ql : list N) : srec :=
+  mk_srec u r s ops sq ql.
 
-(* Record::try_from_alignment_record: features are computed exactly when the record has a
-   reference id and a start (whatever its flags) *)
+(* Record::try_from_alignment_record (Features.convert_core, /repo 405565a): a record that is not
+   flagged unmapped and has no reference id / start / CIGAR stores its bases as one soft clip
+   (span 0, so its alignment end is its start); a record with a CIGAR and SEQ `*` takes its read
+   length from the CIGAR; otherwise the features come from cigar_to_features *)
 Definition sh_convert (refsq : list (N * list N)) (s : srec) : sres hrec :=
-  match sr_ref s, sr_start s with
-  | Some id, Some st =>
-      match nth_error refsq (N.to_nat id) with
-      | None => SErr EInvalidRefId
-      | Some (_, bases) =>
-          match cigar_to_features true bases (sr_seq s) (writer_quals (sr_seq s) (sr_quals s))
-                                  (sr_ops s) st with
-          | None => SErr ERecord
-          | Some ws => SOk (mk_hrec (sr_ref s) (sr_start s) (len (sr_seq s)) ws)
-          end
+  let placed := match sr_ref s, sr_start s with
+                | Some id, Some st => Some (option_map snd (nth_error refsq (N.to_nat id)), st)
+                | _, _ => None
+                end in
+  match convert_core (sr_unmapped s) placed (sr_seq s) (sr_quals s) (sr_ops s) with
+  | Some (rl, missing, _, ws) => SOk (mk_hrec (sr_ref s) (sr_start s) rl ws missing)
+  | None =>
+      (* the error reasons are not observable (all InvalidInput) *)
+      match placed with
+      | Some (None, _) => SErr EInvalidRefId
+      | _ => SErr ERecord
       end
-  | _, _ => SOk (mk_hrec (sr_ref s) (sr_start s) (len (sr_seq s)) [])
   end.
 
 Fixpoint sh_convert_all (refsq : list (N * list N)) (ss : list srec) : sres (list hrec) :=
